@@ -223,6 +223,10 @@ type throttledConn struct {
 	totalLimiter, localLimiter *rate.Limiter
 }
 
+// NetConn returns the connection that tc throttles, so that its users can
+// reach capabilities of the underlying connection such as half-close.
+func (tc throttledConn) NetConn() net.Conn { return tc.Conn }
+
 func (tc throttledConn) Read(p []byte) (int, error) {
 	// The rate limiters will not let us wait for more than their burst
 	// size, so the max we can read in each iteration is the minimum of
